@@ -240,7 +240,9 @@ pub fn inflate_loop_from(
     flush: MZFlush,
     mut out: Vec<u8>,
 ) -> InfResult {
-    let mut buf = vec![0u8; room.min(1 << 20)];
+    // "unlimited" room is served in 1 MiB pieces; an explicit room is honoured exactly (a single
+    // Finish call needs all of it)
+    let mut buf = vec![0u8; if room > (1 << 30) { 1 << 20 } else { room }];
     let mut calls = 0u32;
     // every call either makes progress or is one of a few idle calls; the absolute cap only guards
     // against a wrapper that "progresses" forever
